@@ -400,13 +400,17 @@ for b, label in FAULT_BASES:
 found = 0
 for b, label, schema in ((base1, "one-signer", SCHEMA1), (base2, "two-signers", SCHEMA2)):
     for s_ in range(1, 4000):
-        cand = successor(b["prev"], ZP, overlap=D(days=11, seconds=s_), rid=f"next-req-z{s_}")
+        cand = successor(b["prev"], ZP, overlap=D(days=11) - D(seconds=s_), rid=f"next-req-z{s_}")
         if not any(sg["data"][0] == 0 for bb in skrgen.simulate_skr(cand, schema, KSKS, ZP)["bundles"] for sg in bb["sigs"]):
             continue
         ref = run_ceremony(dict(b, ksr=cand), "probe")
+        if ref["r"] != ("ok", True):
+            rep.violation("impl-vs-spec", f"a clean ceremony did not complete: {ref['r']}", {"kind": "short-signature-probe", "shift_s": s_})
+            break
         signs = [e[1] for e in ref["ops"] if len(e) == 3 and isinstance(e[1], int) and e[0] == "sign"]
-        go(dict(b, ksr=cand, faults={i: "strip-zero" for i in signs}, out_existing=OLD,
+        ob_ = go(dict(b, ksr=cand, faults={i: "strip-zero" for i in signs}, out_existing=OLD,
                 why="the token returned an RSA signature one octet short of the modulus (leading zero dropped)"), f"fault-{label}-short-signature", "fault")
+        if os.environ.get("VERIF_DEBUG"): print("DBG", s_, signs, ref["r"], ob_["r"], [(e.get("fault"), len(e["result"] or b"")) for e in ob_["sign_log"]], file=sys.stderr)
         found += 1
         break
 hist["short-signature-search"] = found
